@@ -99,6 +99,9 @@ def check(run):
     outfile(run, p)
     inplace(run, p)
     vername(run, p, km)
+    sibling_ctor(run, p)
+    from .c09 import sameprep
+    sameprep(run, p, 'C06-SAMEPREP')
     from .c17 import rownum
     rownum(run, p)
     run.rules['C06-ROWNUM'] = run.rules.pop('C17-ROWNUM')
@@ -280,3 +283,46 @@ def vername(run, p, km):
         r = I.call(iv, [name, field])
         run.ob('C06-VERNAME', 'not-a-flag:%s/%s' % (name, field), not r, 'is_ver_field(%r, %r) = %r' % (name, field, r), fn=iv, nontrivial=False)
     run.floor('C06-VERNAME', n, 80)
+
+
+def sibling_ctor(run, p):
+    run.rule('C06-SAMESETUP', 'detection is verification plus flags: detect_df builds its PandasConstraintVerifier with exactly the '
+                              'keywords verify_df does (epsilon, type_checking, ...), each from its own parameter of the same name, and '
+                              'every named option either entry point passes on to .verify/.detect is a named parameter further down '
+                              '(not swallowed by a bare **kwargs)')
+    fs = {n: p.fn('tdda.constraints.pd.constraints.' + n) for n in ('verify_df', 'detect_df')}
+    kws = {}
+    for n, f in fs.items():
+        calls = [x for x in p.own_nodes(f) if isinstance(x, ast.Call) and norm(x.func).split('.')[-1] == 'PandasConstraintVerifier']
+        if len(calls) != 1:
+            raise AnalysisError('%s constructs %d verifiers' % (n, len(calls)))
+        c = calls[0]
+        kws[n] = {k.arg: k.value for k in c.keywords if k.arg}
+        for k, v in sorted(kws[n].items()):
+            ok = isinstance(v, ast.Name) and v.id == k and k in f.params
+            run.ob('C06-SAMESETUP', '%s::%s::%s=' % (f.rel, n, k), ok, '%s passes %s=%s to the verifier' % (n, k, norm(v)), fn=f, node=c,
+                   nontrivial=False)
+    a, b = set(kws['verify_df']), set(kws['detect_df'])
+    run.ob('C06-SAMESETUP', 'verifier-keywords', a == b,
+           'verify_df configures the verifier with %s, detect_df with %s%s' % (sorted(a), sorted(b), '' if a == b else
+                                                                              ': %s not given to the detection verifier' % sorted(a ^ b)),
+           fn=fs['detect_df'])
+    # keywords handed to .verify / .detect must be named somewhere down the chain
+    bv = p.method('BaseConstraintVerifier', 'detect')
+    bvv = p.method('BaseConstraintVerifier', 'verify')
+    ver = p.method('Verification', '__init__')
+    wr = p.method('PandasConstraintDetector', 'write_detected_records')
+    vf = p.fn('tdda.constraints.base.verify')
+    named = set(bv.params) | set(bvv.params) | set(ver.params) | set(vf.params) | set(wr.params) | \
+        {x[len('detect_'):] for x in wr.params if x.startswith('detect_')}
+    n = 0
+    for nme, f in fs.items():
+        for x in p.own_nodes(f):
+            if isinstance(x, ast.Call) and isinstance(x.func, ast.Attribute) and x.func.attr in ('verify', 'detect'):
+                for k in x.keywords:
+                    if k.arg:
+                        n += 1
+                        run.ob('C06-SAMESETUP', '%s::%s::.%s(%s=)' % (f.rel, nme, x.func.attr, k.arg), k.arg in named,
+                               '%s passes %s= to .%s, which %s' % (nme, k.arg, x.func.attr, 'is a named parameter on the chain' if k.arg in named
+                                                                   else 'only **kwargs absorbs: the option has no effect'), fn=f, node=x, nontrivial=False)
+    run.floor('C06-SAMESETUP', n, 10)
